@@ -61,6 +61,8 @@ var apiCmd = &cobra.Command{
 			if apiContent == nil {
 				forceUpdateApi()
 			}
+			// the decoder fills what is already there: start from an empty model
+			restApis = nil
 			_ = json.Unmarshal(apiContent, &restApis)
 		}
 
